@@ -13,6 +13,7 @@ relation per analysis: what the analysis REPORTS must be true of what was OBSERV
 from __future__ import annotations
 
 import hashlib
+import os
 import signal
 from fractions import Fraction
 
@@ -30,7 +31,8 @@ LEVEL = 'exploration'
 RULE = ('Programs: FPy source text from (a) vlib.progen general profile with typed signatures, (b) vlib.c13_gen, which adds '
         'list[list[Real]] values, aliases through binding/indexing/slicing/construction/tuple packing/iteration/comprehension '
         'variables/zip/enumerate, row replacement through aliases, value-class arithmetic (x/0, inf-inf, 0*x, abs, class tests '
-        'refining a branch), constants under `with` contexts and redefined in loops, and (c) scenario templates with random '
+        'refining a branch), constants under `with` contexts and redefined in loops, loop variables rebinding existing names, '
+        'strict zips in conditionally evaluated positions, and (c) scenario templates with random '
         'parameters; every function of a module is analysed and traced on inputs typed to its signature (specials, +-0, '
         'empty/singleton lists).  A case = (function, input) that ran to completion.  Non-trivial = the function has a loop-header '
         'or branch phi whose value-class/size/constant fact is strictly weaker than on one incoming edge, or the run created an '
@@ -46,7 +48,14 @@ ASSUMPTIONS = [
     'the visible class analysis-crash:<Analysis>:<Exc> (not a violation).',
 ]
 EXHAUSTIVE = {'quick': False, 'thorough': False}
-FLOORS = {'completed': 0.3, 'prog:phi:loop': 50, 'prog:phi:branch': 50}
+FLOORS = {'completed': 0.3, 'prog:phi:loop': 50, 'prog:phi:branch': 50,
+          'prog:merge-weaker:value_class:loop': 30, 'prog:merge-weaker:value_class:branch': 30,
+          'prog:merge-weaker:size:loop': 15, 'prog:merge-weaker:size:branch': 15,
+          'prog:merge-weaker:const:loop': 30, 'prog:merge-weaker:const:branch': 30,
+          'alias-pair:binding:names': 50, 'alias-pair:indexing:names': 20, 'alias-pair:slicing:rows': 20,
+          'alias-pair:construction:rows': 20, 'alias-pair:iteration:names': 20, 'alias-pair:comprehension-var:rows': 20,
+          'alias-pair:tuple-unpack/tuple-packing:names': 20, 'alias-pair:iteration-zip:names': 10,
+          'alias-pair:iteration-enumerate:names': 10}
 
 N_INPUTS = 5
 CHECKED = ('TypeInfer', 'ArraySizeInfer', 'ValueClassInfer', 'PartialEval', 'DefineUse', 'Alias')
@@ -54,7 +63,7 @@ NT_ROUTES = ('indexing', 'slicing', 'construction', 'tuple-packing', 'iteration'
              'projection', 'if-expr')
 
 
-class _Timeout(Exception):
+class _Timeout(BaseException):
     pass
 
 
@@ -150,12 +159,25 @@ def check_module(res: Result, src, funcs, origin, rows=True):
 
 def check_function(res: Result, src, sh, fname, fn, inputs, origin, rows=True):
     res.count('functions')
-    facts = Facts(fn.ast)
+    old = signal.signal(signal.SIGALRM, _alarm)
+    signal.alarm(60)
+    try:
+        facts = Facts(fn.ast)
+    except _Timeout:          # an analysis that does not terminate: visible class, the function is skipped
+        res.cls('analysis-crash:some-analysis:no-termination-within-60s')
+        res.skip('analysis-crash:some-analysis:no-termination-within-60s')
+        res.sample({'analysis_crash': 'no-termination-within-60s', 'func': fname, 'src': src})
+        return
+    finally:
+        signal.alarm(0)
+        signal.signal(signal.SIGALRM, old)
     for name, st in facts.status.items():
         if st == 'ok':
             res.cls(f'accepted:{name}')
         elif st.startswith('reject:'):
             res.skip(f'not-accepted:{name}:{st[7:]}')
+        elif st.startswith('blocked:'):
+            res.skip(f'blocked-by-crash-of:{st[8:]}:{name}')
         else:
             key = f'analysis-crash:{name}:{st[6:]}'
             res.cls(key)
@@ -211,11 +233,14 @@ def check_function(res: Result, src, sh, fname, fn, inputs, origin, rows=True):
 def shards(tier, seed):
     thorough = tier == 'thorough'
     out = []
-    n_gen, per_gen = (96, 400) if thorough else (32, 22)
-    n_x, per_x = (160, 400) if thorough else (48, 26)
+    n_gen, per_gen = (96, 300) if thorough else (32, 22)
+    n_x, per_x = (160, 300) if thorough else (48, 26)
     out += [('progen', i, per_gen, seed, tier) for i in range(n_gen)]
     out += [('c13gen', i, per_x, seed, tier) for i in range(n_x)]
     out += [('tmpl', i, seed, tier) for i in range(16 if thorough else 8)]
+    only = os.environ.get('VERIF_C13_KINDS')      # development aid: run a subset of the shard kinds
+    if only:
+        out = [s for s in out if s[0] in only.split(',')]
     return out
 
 
@@ -265,30 +290,38 @@ def replay(case):
 
 
 def selftest():
-    # the oracles must notice a fact that is false of a run: judge a run against the facts of a DIFFERENT function
-    # with the same shape (constants 1 vs 2; class ZERO vs FINITE; size 2 vs 3)
-    src = ('@fp.fpy(ctx=fp.REAL)\ndef f(a: fp.Real) -> fp.Real:\n    xs = [{c}, a{extra}]\n    ys = xs\n    y = {c} * 1\n'
-           '    return y + len(ys)\n')
-    m1 = load_module(src.format(c='0', extra=''))
-    m2 = load_module(src.format(c='2', extra=', a'))
+    """Each oracle must notice a reported fact that is false of a run: corrupt one fact at a time."""
+    from fpy2.analysis import ValueClass
+    from fpy2.analysis.array_size import ListSize
+    from fpy2.types import BoolType
+    src = ('@fp.fpy(ctx=fp.REAL)\ndef f(a: fp.Real, xs: list[fp.Real]) -> fp.Real:\n    ks = [1, 2]\n    ys = xs\n    c = 2 * 3\n'
+           '    if a > 0:\n        c = c + a\n    z = 0 * 1\n    return c + len(ys) + ks[0] + z\n')
+    m = load_module(src)
     try:
-        f1 = Facts(m1.f.ast)
+        facts = Facts(m.f.ast)
+        assert all(st == 'ok' for st in facts.status.values()), facts.status
         rt = TracingInterpreter13()
-        r = rt.eval(m1.f, [3.0])
-        rec = rt.recs[id(m1.f.ast)]
-        assert check_run(f1, rec, r, {}) == [], check_run(f1, rec, r, {})
+        r = rt.eval(m.f, [3.0, [1.0]])
+        rec = rt.recs[id(m.f.ast)]
         st = {}
-        check_run(f1, rec, r, st)
-        assert st.get('facts:const', 0) > 3 and st.get('facts:alias', 0) >= 1 and st.get('facts:reach', 0) >= 4, st
-        # transplant: map nodes of m1 onto facts of m2 positionally
-        f2 = Facts(m2.f.ast)
-        rt2 = TracingInterpreter13()
-        rt2.eval(m2.f, [3.0])
-        rec2 = rt2.recs[id(m2.f.ast)]
-        assert len(rec.nodes) == len(rec2.nodes)
-        rec.nodes = rec2.nodes
-        bad = {b.split('/')[0] for b, *_ in check_run(f2, rec, r, {})}
-        assert {'const', 'size', 'value_class'} <= bad, bad
+        assert check_run(facts, rec, r, st) == [], check_run(facts, rec, r, {})
+        assert st['facts:const'] > 5 and st['facts:alias'] >= 1 and st['facts:reach'] >= 6 and st['facts:size'] >= 4, st
+        assert st['facts:value_class-nontop'] >= 4 and st['facts:reach-through-phi'] >= 1, st
+
+        def find(table, text):
+            return [e for e in table if e.format() == text]
+        pe, sz, vc, ti, du, al = (facts.get(n) for n in ('PartialEval', 'ArraySizeInfer', 'ValueClassInfer', 'TypeInfer',
+                                                         'DefineUse', 'Alias'))
+        pe.by_expr[find(pe.by_expr, '(2 * 3)')[0]] = Fraction(7)
+        sz.by_expr[find(sz.by_expr, '[1, 2]')[0]] = ListSize(None, 5)
+        vc.by_expr[find(vc.by_expr, '(0 * 1)')[0]] = ValueClass.FINITE
+        ti.by_expr[find(ti.by_expr, 'a')[0]] = BoolType()
+        al.may_alias = lambda a, b: False
+        bad = {b.split('/')[0] for b, *_ in check_run(facts, rec, r, {})}
+        assert bad == {'const', 'size', 'value_class', 'type', 'alias'}, bad
+        cuse = [e for e in du.use_to_def if e.format() == 'c'][-1]
+        du.use_to_def[cuse] = facts.entry_defs['a']
+        bad = {b.split('/')[0] for b, *_ in check_run(facts, rec, r, {})}
+        assert 'reach' in bad, bad
     finally:
-        unload(m1)
-        unload(m2)
+        unload(m)
